@@ -379,7 +379,7 @@ func (g *gen) mkStruct(i int) *Decl {
 		// a tag on the embedded struct: without a name its fields are still promoted, with a name
 		// (or "-") it is a regular field
 		if g.chance(0.5) {
-			tags := []string{`json:",omitempty"`, `json:",inline"`, `json:""`}
+			tags := []string{`json:",omitempty"`, `json:",inline"`, `json:""`, `gomacro-data:"ignore"`}
 			// a NAME on an embedded struct of an unexported type is a recorded finding (C09: encoding/json
 			// writes the key, the analysis drops the unexported field): only exported types get one
 			if emb.Name[0] >= 'A' && emb.Name[0] <= 'Z' {
